@@ -9,6 +9,8 @@ D = {
  "C01-D": ("C01", "same idea as C12-B: GnuTLS verify keeps the last imported public key in file-scope statics keyed by the item's address", "key rotation within one process (free K1, load K2 at the same address)"),
  "C02-A": ("C02", "same change as C01-A (chosen independently by the C02 agent)", "as C01-A"),
  "C02-B": ("C02", "jwt_checker_verify skips the post-callback __setkey_check when the callback left the key unchanged", "a callback that changes only config->alg"),
+ "C02-C": ("C02", "__verify_config_post simplified AND jwt_checker_verify re-admits the callback's choice only when the KEY changed", "a key with its own alg set with alg none, a callback that keeps the key but sets config->alg: the key accepts tokens of other algorithms of its family"),
+ "C02-D": ("C02", "jwt-verify resolves 'the key's alg wins over -a' before calling setkey", "jwt-verify -a RS512 -k key-with-alg-RS256 TOKEN: no Alg mismatch, exit 0"),
  "C03-A": ("C03", "same change as C01-A (chosen independently by the C03 agent)", "as C01-A"),
  "C03-B": ("C03", "jwt_str_alg compares names with strcasecmp", "a header alg spelled 'NONE', 'None', 'hs256', ..."),
  "C04-A": ("C04", "jwt_checker_time_leeway(.., 0) no longer re-enables a disabled check", "leeway set to -1 and later to 0 for the same claim"),
@@ -21,6 +23,8 @@ D = {
  "C05-D": ("C05", "same idea as C10-B: time claims written through a helper taking the offset as int", "an nbf / exp offset of 2^31 seconds or more"),
  "C06-A": ("C06", "base64_decode drops the range check in front of the table lookup", "a token byte above 'z' or below '+' (out-of-bounds table read)"),
  "C06-B": ("C06", "struct jwt error_msg doubled to 512 bytes while checker/builder keep 256; jwt_copy_error is a plain strcpy", "a header alg string of 241 characters or more ('Invalid ALG: [...]' overflows the checker's message buffer)"),
+ "C06-C": ("C06", "GnuTLS ECDSA verify: the DER signature is freed on the success path only", "an ES* token with a well-sized but invalid signature under GnuTLS: 70 bytes leak per token"),
+ "C06-D": ("C06", "jwt_strcmp made branch-free with i % len1 / i % len2", "a header alg that is the empty string: division by zero (SIGFPE) in every checker"),
  "C07-A": ("C07", "same change as C06-A", "a JWK member containing a byte outside the table range"),
  "C07-B": ("C07", "jwk_process_one returns NULL for a keys entry that is not a JSON object", "a keys array containing a number/string/null/array entry"),
  "C07-C": ("C07", "pctx_to_pem runs EVP_PKEY_pairwise_check on private keys and frees the key on mismatch -- after item->provider_data was set", "a private JWK whose private half belongs to another key, then freeing the set: EVP_PKEY_free twice"),
@@ -30,6 +34,8 @@ D = {
  "C08-C": ("C08", "set_ec_pub_key refuses x and y of different octet length", "an EC JWK written with minimal-length integers where exactly one coordinate has a leading zero octet"),
  "C09-A": ("C09", "key size compared in octets rounded UP ((bits + 7) / 8) in __check_hmac / __check_key_bits", "an RSA modulus of 2041..2047 bits"),
  "C09-B": ("C09", "_verify_sha_hmac calls sign_sha_hmac directly, bypassing __check_hmac in jwt_sign", "an HS* token verified with an oct key shorter than the hash"),
+ "C09-C": ("C09", "RSA key size taken as BN_num_bytes(n) * 8 and OpenSSL's bit count only queried when that is 0", "an RSA modulus of 2041..2047 bits recorded as 2048"),
+ "C09-D": ("C09", "__check_key_bits: a PSS pre-check breaks out without writing an error", "verifying a PS512 token with a 1024-bit key (PS384: 768, PS256: 512): any signature accepted"),
  "C10-A": ("C10", "jwt_builder_generate runs jwt_head_setup before AND after the callback", "a keyed builder whose callback downgrades to alg none (typ JWT left behind) or sets its own typ without replace"),
  "C10-B": ("C10", "time claims written through a helper taking the offset as int", "an nbf / exp offset above INT_MAX seconds"),
  "C10-C": ("C10", "generate copies headers/claims with json_copy (shallow) AND jwt_set_int replaces an existing integer in place", "an integer builder claim replaced during generate (iat/nbf/exp by name, or by the callback): the builder's own claim changes"),
@@ -42,6 +48,8 @@ D = {
  "C13-B": ("C13", "jwt_builder_generate: callback block ends in 'if (__cmd->error) return NULL' (stale flag)", "a builder with a callback, a failed generate whose error was not cleared, then a generate that should succeed"),
  "C14-A": ("C14", "jwt_checker_verify only resets the flag on success (message not cleared)", "a failure, then a success on the same checker without error_clear: ret 0, flag 0, stale message"),
  "C14-B": ("C14", "jwt_get_int returns JWT_VALUE_ERR_TYPE without storing it in the value (getter de-duplication)", "an INT get of a member that exists with another type, by a caller that reads value.error"),
+ "C14-C": ("C14", "same idea as C05-C: jwt_checker_verify copies the error state back only when set and returns the per-call flag", "a failing verify then a succeeding one on the same checker: returns 0 with the flag still 1"),
+ "C14-D": ("C14", "jwt_set_json fast path returns EXIST for a taken name without storing it in the value", "a JSON-typed set of an existing name without replace, by a caller that reads value.error"),
  "C15-A": ("C15", "jwt_obj_check (which deletes on replace) runs before the new value is validated", "replace-set of an existing name with malformed / scalar JSON text or a NULL string: INVALID, but the old member is gone"),
  "C15-B": ("C15", "jwt_get_int range-checks against INT_MAX / INT_MIN", "a stored integer beyond 32 bits (exp after 2038): get INT answers TYPE"),
  "C16-A": ("C16", "jwks_item_get caches the last (item, index) and resumes from it; removals do not adjust the index", "get(i), free(j < i), get(k >= i)"),
@@ -56,6 +64,8 @@ D = {
  "C18-B": ("C18", "GnuTLS verify with a private JWK memoises the derived public key in unsynchronised process-wide state", "two threads verifying with two different private JWKs under GnuTLS"),
  "C19-A": ("C19", "only exp/nbf/iss/sub/aud are saved around the callback and put back with json_object_update", "a token lacking iss/sub/aud, a checker requiring it, a callback that adds it"),
  "C19-B": ("C19", "jwt_*_setkey refuses use=enc keys, but the post-callback __setkey_check does not", "a use=enc key selected inside a callback"),
+ "C19-C": ("C19", "same idea as C19-A (only the five checked claims are saved around the callback)", "a token lacking a checked claim and a callback that adds it"),
+ "C19-D": ("C19", "jwt_header_set keeps jwt->alg in sync with an alg header set through the API", "a callback that rewrites the alg header: the token is judged under the algorithm the callback wrote"),
  "C20-A": ("C20", "jwt-verify reads stdin with getline() and chops the last character unconditionally", "a last token without trailing newline"),
  "C20-B": ("C20", "set_one_bn rejects members with a leading zero octet", "an EC private key whose fixed-width d starts with 0x00 (key2jwk output the library then refuses)"),
  "C20-C": ("C20", "jwt-verify counts a stdin line without newline as 'token too long' (forgets that the last line may end at EOF)", "a last stdin token without trailing newline: never verified, counted as failed"),
